@@ -640,7 +640,7 @@ def _main():
             trusted_base=["Lean %s kernel (`lean --version` on this run)" % lean_version(), "axioms: " + ", ".join(lean["axioms_seen"] or ["none"]),
                           "Mathlib v4.33.0 (single modules, proof files only)",
                           "tools/gen_constants.py (translator: constants, hash field orders, delegation bodies, call-site argument orders, structural trait impls; re-run on this run)",
-                          "tools/gen_code.py (logic translator: cipher loop bodies, header builders/parsers, RC4 PRGA, the zero-strip rule, the five big-integer formulas -> Gen/Code.lean; tools/gen_imp.py: the loops of pin.rs and matrix_card.rs -> Gen/CodeImp.lean; tools/gen_str.py: NormalizedString::new -> Gen/CodeStr.lean; tools/gen_ksa.py: the RC4 key schedule -> Gen/CodeKsa.lean; re-run on this run) and the Rust semantics given to their terms in Model/MiniRust.lean, MiniLayout.lean, MiniRc4.lean, MiniScan.lean, MiniBig.lean, MiniImp.lean, MiniStr.lean, MiniKsa.lean",
+                          "tools/gen_code.py (logic translator: cipher loop bodies, header builders/parsers, RC4 PRGA, the zero-strip rule, the five big-integer formulas -> Gen/Code.lean; tools/gen_imp.py: the loops of pin.rs and matrix_card.rs -> Gen/CodeImp.lean; tools/gen_str.py: NormalizedString::new -> Gen/CodeStr.lean; tools/gen_ksa.py: the RC4 key schedule -> Gen/CodeKsa.lean; tools/gen_hash.py: the 14 hash-layout functions of srp_internal*.rs, vanilla_header/internal.rs, integrity.rs -> Gen/CodeHash.lean; re-run on this run) and the Rust semantics given to their terms in Model/MiniRust.lean, MiniLayout.lean, MiniRc4.lean, MiniScan.lean, MiniBig.lean, MiniImp.lean, MiniStr.lean, MiniKsa.lean, MiniHash.lean",
                           "correspondence check: harness/src/main.rs + lean/Driver.lean (token parser / printer around Model/Session.lean's HObj.step and the other model functions) + tools/verif.py differ",
                           "independent Python reference for the oracle: tools/pyref.py, pyhdr.py, pydriver.py",
                           "modelled, not verified: rustc/std, sha-1, hmac, md5, num-bigint, rug/GMP, rand (Model/Deps.lean, Model/Crypto.lean)"],
